@@ -79,8 +79,10 @@ enum PathKind {
     ForgedSig,
     SelfHop,
     NoPath,
+    /// payer -> creator -> someone else: the creator is on the path but not its end
+    PassThrough,
 }
-const PATHS: [PathKind; 7] = [PathKind::OneHop, PathKind::TwoHop, PathKind::NoPath, PathKind::NotToCreator, PathKind::Broken, PathKind::ForgedSig, PathKind::SelfHop];
+const PATHS: [PathKind; 8] = [PathKind::OneHop, PathKind::TwoHop, PathKind::NoPath, PathKind::NotToCreator, PathKind::Broken, PathKind::ForgedSig, PathKind::SelfHop, PathKind::PassThrough];
 
 /// independent oracle: (transaction valid as far as the path goes, work for `creator`)
 fn oracle_work(tx: &Transaction, fee: u64, creator: &SaitoPublicKey) -> (bool, u64) {
@@ -116,6 +118,7 @@ fn routed_tx(w: &World, parent: usize, fee: u64, kind: PathKind, ts: u64, salt: 
         PathKind::OneHop => add_hops(&mut tx, &[k1], &c),
         PathKind::TwoHop => add_hops(&mut tx, &[k1, key(4)], &c),
         PathKind::NotToCreator => add_hops(&mut tx, &[k1], &key(5).public),
+        PathKind::PassThrough => add_hops(&mut tx, &[k1, w.creator.clone()], &key(5).public),
         PathKind::Broken => {
             // second hop does not start where the first ended
             let h1 = Hop::generate(&k1.private, &k1.public, &key(4).public, &tx);
@@ -163,7 +166,7 @@ fn gating(rep: &mut Report, tier: &Tier) {
         // fee chosen so that the work a valid path of this kind delivers is needed+delta
         let target = (needed as i64 + delta).max(0) as u64;
         let fee = match kind {
-            PathKind::TwoHop => target.saturating_mul(2).saturating_sub(if target > 0 { 1 } else { 0 }).max(target),
+            PathKind::TwoHop | PathKind::PassThrough => target.saturating_mul(2).saturating_sub(if target > 0 { 1 } else { 0 }).max(target),
             _ => target,
         };
         let Some(tx) = routed_tx(&w, tip, fee, *kind, ts, i as u64) else {
@@ -248,7 +251,7 @@ fn gating(rep: &mut Report, tier: &Tier) {
         let needed = work(pbf, *e, hb);
         let target = (needed as i64 + delta).max(0) as u64;
         let fee = match kind {
-            PathKind::TwoHop => target.saturating_mul(2).saturating_sub(if target > 0 { 1 } else { 0 }).max(target),
+            PathKind::TwoHop | PathKind::PassThrough => target.saturating_mul(2).saturating_sub(if target > 0 { 1 } else { 0 }).max(target),
             _ => target,
         };
         // a payment with the wanted path, retyped into the golden ticket of this block
@@ -273,6 +276,7 @@ fn gating(rep: &mut Report, tier: &Tier) {
             PathKind::OneHop => add_hops(&mut gt, &[k1], &c),
             PathKind::TwoHop => add_hops(&mut gt, &[k1, key(4)], &c),
             PathKind::NotToCreator => add_hops(&mut gt, &[k1], &key(5).public),
+            PathKind::PassThrough => add_hops(&mut gt, &[k1, w.creator.clone()], &key(5).public),
             PathKind::Broken => {
                 let h1 = Hop::generate(&k1.private, &k1.public, &key(4).public, &gt);
                 let h2 = Hop::generate(&key(5).private, &key(5).public, &c, &gt);
